@@ -325,7 +325,12 @@ pub fn check_cli(c: &CliCase) -> Result<bool, Violation> {
     let wrote_file = ["out.dot", "tree.dot"]
         .iter()
         .any(|f| std::fs::metadata(scratch.path(f)).map(|m| m.len() > 0).unwrap_or(false));
-    if out.code != Some(0) && out.err().trim().is_empty() && out.out().trim().is_empty() && !wrote_file {
+    // "report an error as ... a non-zero exit with a message": judged where the reference knows the
+    // request cannot be served (formula not a sentence / not UTF-8, missing file, directory). What
+    // status a SERVED request ends with is not prescribed.
+    let servable = matches!(c.channel.as_str(), "arg" | "file" | "stdin")
+        && std::str::from_utf8(&c.formula).ok().and_then(|s| rparse::parse_text(s.as_bytes()).ok()).is_some();
+    if !servable && out.code != Some(0) && out.err().trim().is_empty() && out.out().trim().is_empty() && !wrote_file {
         return Err(Violation::new(
             format!("rsbdd exited with {:?} without any message or output", out.code),
             cj,
